@@ -106,7 +106,7 @@ fn dec_small(scale: u32) -> D {
 /// the rate used is the most recent one dated on or before the query day; none if all are later;
 /// Y in Y is the identity.
 vk_proof_models! {
-    #[cfg_attr(kani, kani::stub(core::slice::sort::unstable::sort, crate::verif_env::unstable_sort_model))]
+    #[cfg_attr(kani, kani::stub(core::slice::sort::unstable::sort, crate::verif_env::unstable_sort_identity))]
     unwind 6; fn c09_asof_direct() {
     let d1 = vk::below(8);
     let d2 = vk::below(8);
@@ -219,6 +219,7 @@ fn source_precedence<const DB_FIRST: bool, const READ_BACK: bool>() {
             assert!(e.1[0].0 == day(1), "C09: the surviving price is not the price-database one (date)");
         }
     }
+    vk_cover!(l1 != p, "ledger and price-db prices differ");
     core::mem::forget(b);
 }
 vk_proof_models! { unwind 6; fn c09_source_precedence() { source_precedence::<false, false>(); } }
@@ -256,7 +257,7 @@ vk_proof_models! { unwind 4; fn c09_distance_order() {
 /// only prices dated on or before the query day; direct vs. two-step chain ranked by (ledger-derived steps,
 /// steps); the rate of a chain is the product of its steps; no usable chain => no rate; T in T = 1.
 vk_proof_models! {
-    #[cfg_attr(kani, kani::stub(core::slice::sort::unstable::sort, crate::verif_env::unstable_sort_model))]
+    #[cfg_attr(kani, kani::stub(core::slice::sort::unstable::sort, crate::verif_env::unstable_sort_identity))]
     unwind 6; fn c09_chain_3() {
     let q = vk::below(4);
     // All three pairs are present (concrete map shapes keep the search's path count small); a pair whose
@@ -314,6 +315,49 @@ vk_proof_models! {
     vk_cover!(!ud && ua && ub, "only the chain is usable");
     vk_cover!(has_d && !ud && !(ua && ub), "every price is in the future");
     core::mem::forget(table);
+    core::mem::forget(repo);
+} }
+
+/// C10-H2 / C09: two conversions of the same holding at two different dates through one PriceRepository
+/// (the rate-table cache sits between them): each must use the price as of ITS date - a table computed for
+/// one date must never answer for another (in either order: `--historical` walks postings in file order,
+/// which need not be date order).
+vk_proof_models! {
+    #[cfg_attr(kani, kani::stub(core::slice::sort::unstable::sort, crate::verif_env::unstable_sort_identity))]
+    unwind 6; fn c10_convert_two_dates() {
+    let d1 = vk::below(4);
+    let d2 = vk::below(4);
+    let q1 = vk::below(4);
+    let q2 = vk::below(4);
+    let r1 = dec_small6();
+    let r2 = dec_small6();
+    let v = dec_small6();
+    vk::assume(d1 < d2);
+    vk::note(&|| format!("X in T: day{} -> {}, day{} -> {}; {} X converted at day{} and then at day{}", d1, r1, d2, r2, v, q1, q2));
+    let (x, t) = (commodity(0), commodity(1));
+    let mut rates = Vec::with_capacity(2);
+    rates.push((day(d1), r1));
+    rates.push((day(d2), r2));
+    let mut inner: HashMap<Commodity<'static>, Entry> = HashMap::new();
+    inner.insert(x, Entry(PriceSource::PriceDB, rates));
+    let mut records: HashMap<Commodity<'static>, HashMap<Commodity<'static>, Entry>> = HashMap::new();
+    records.insert(t, inner);
+    let mut repo = PriceRepository::new(NaivePriceRepository { records });
+    let want = |q: u8| if d2 <= q { Some(v * r2) } else if d1 <= q { Some(v * r1) } else { None };
+    let holding = SingleAmount::from_value(v, x);
+    let g1 = repo.convert_single(holding, t, day(q1));
+    let g2 = repo.convert_single(holding, t, day(q2));
+    let check = |g: &Result<SingleAmount<'static>, ConversionError<'static>>, w: Option<D>| match (g, w) {
+        (Err(_), None) => {}
+        (Ok(a), Some(w)) => assert!(a.value == w && a.commodity == t, "C10: a holding was not converted at the price as of its own date"),
+        (Ok(_), None) => panic!("C10: converted with a price dated after the conversion date instead of failing"),
+        (Err(_), Some(_)) => panic!("C10: conversion failed although a price on or before the date exists"),
+    };
+    check(&g1, want(q1));
+    check(&g2, want(q2));
+    vk_cover!(q1 > q2 && want(q1).is_some() && want(q2).is_none(), "later date first, earlier date has no price yet");
+    vk_cover!(q1 < q2 && d1 <= q1 && q1 < d2 && d2 <= q2, "the price changes between the two dates");
+    core::mem::forget((g1, g2));
     core::mem::forget(repo);
 } }
 
@@ -382,5 +426,6 @@ fn verif_replay_entry() {
         ("c09_distance_order", c09_distance_order as fn()),
         ("c09_chain_3", c09_chain_3 as fn()),
         ("c10_convert_amount", c10_convert_amount as fn()),
+        ("c10_convert_two_dates", c10_convert_two_dates as fn()),
     ]);
 }
